@@ -1,3 +1,145 @@
 import QtyModel.Fmt
+import QtyModel.Lemmas.Basic
+/-
+  C15 — Text output is faithful and parseable.  (partial: `core::fmt` is modelled)
+
+  Property theorems only, about the model `Fmt` of `Quantity::fmt`, `Display for Rate`
+  and `Display for Decimal`.  What is NOT modelled: the digits std prints for an `f64`
+  (taken from std in the correspondence run and checked there for digit count and
+  correct rounding) and `Formatter::pad` for unit symbols (compared with std's own
+  formatting of the symbol string).
+-/
 namespace Qty.C15
+open Qty Qty.Fmt
+
+/-- the sign text: exactly one leading minus for negative amounts, `+` only with the flag -/
+def signOf (sp : Spec) (nonneg : Bool) : Text := if !nonneg then [45] else if sp.plus then [43] else []
+
+/-- without a width: sign, amount text, ONE space, unit symbol — nothing else -/
+theorem fmt_shape (sp : Spec) (nonneg : Bool) (amt sym : Text) (h : sp.width = none) :
+    qtyFmt sp nonneg amt sym = signOf sp nonneg ++ amt ++ [32] ++ sym := by
+  simp [qtyFmt, padNumeric, h, signOf, List.append_assoc]
+
+/-- the displayed length IN CHARACTERS is the requested width, or the natural length if that is larger -/
+theorem fmt_width (sp : Spec) (nonneg : Bool) (body : Text) :
+    (padNumeric sp nonneg body).length =
+      max (sp.width.getD 0) (body.length + (signOf sp nonneg).length) := by
+  unfold padNumeric signOf
+  cases hw : sp.width with
+  | none => simp [List.length_append, Nat.add_comm]
+  | some w =>
+    by_cases hle : w ≤ body.length + (if (!nonneg) = true then [45] else if sp.plus = true then [43] else ([] : Text)).length
+    · simp only [hle, if_true, Option.getD_some, List.length_append]
+      omega
+    · simp only [hle, if_false, Option.getD_some]
+      by_cases hz : sp.zero = true
+      · simp only [hz, if_true, List.length_append, rep, List.length_replicate]; omega
+      · simp only [hz, Bool.false_eq_true, if_false]
+        rcases ha : sp.align with _ | a
+        · simp only [List.length_append, rep, List.length_replicate]; omega
+        · cases a <;> simp only [List.length_append, rep, List.length_replicate] <;> omega
+
+/-- `padNumeric` spelled out with `signOf` -/
+theorem padNumeric_eq (sp : Spec) (nonneg : Bool) (body : Text) :
+    padNumeric sp nonneg body =
+      (match sp.width with
+       | none => signOf sp nonneg ++ body
+       | some w =>
+         if w ≤ body.length + (signOf sp nonneg).length then signOf sp nonneg ++ body
+         else if sp.zero then signOf sp nonneg ++ rep (w - (body.length + (signOf sp nonneg).length)) 48 ++ body
+         else
+           let pad := w - (body.length + (signOf sp nonneg).length)
+           let pp : Nat × Nat := match sp.align with
+             | some .left => (0, pad)
+             | some .center => (pad / 2, (pad + 1) / 2)
+             | _ => (pad, 0)
+           rep pp.1 (sp.fill.getD 32) ++ signOf sp nonneg ++ body ++ rep pp.2 (sp.fill.getD 32)) := by
+  unfold padNumeric signOf
+  cases sp.width with
+  | none => rfl
+  | some w =>
+    simp only
+    split
+    · rfl
+    · split
+      · rfl
+      · rcases sp.align with _ | a
+        · rfl
+        · cases a <;> rfl
+
+/-- sign, fill and alignment apply to the text as a whole: the output is
+`fill* ++ sign ++ body ++ fill*`, or `sign ++ 0* ++ body` with the zero flag; the sign is
+adjacent to the amount text and occurs once -/
+theorem fmt_placement (sp : Spec) (nonneg : Bool) (body : Text) :
+    ∃ pre post : Nat,
+      (sp.zero = true → padNumeric sp nonneg body = signOf sp nonneg ++ rep pre 48 ++ body ∧ post = 0) ∧
+      (sp.zero = false → padNumeric sp nonneg body =
+          rep pre (sp.fill.getD 32) ++ signOf sp nonneg ++ body ++ rep post (sp.fill.getD 32)) ∧
+      (sp.zero = false → sp.align = some .left → pre = 0) ∧
+      (sp.zero = false → (sp.align = some .right ∨ sp.align = none) → post = 0) ∧
+      (sp.zero = false → sp.align = some .center → (post = pre ∨ post = pre + 1)) := by
+  rw [padNumeric_eq]
+  generalize signOf sp nonneg = sg
+  cases hw : sp.width with
+  | none => exact ⟨0, 0, by simp [rep], by simp [rep], by simp, by simp, by simp⟩
+  | some w =>
+    simp only
+    by_cases hle : w ≤ body.length + sg.length
+    · simp only [hle, if_true]
+      exact ⟨0, 0, by simp [rep], by simp [rep], by simp, by simp, by simp⟩
+    · simp only [hle, if_false]
+      cases hz : sp.zero with
+      | true => exact ⟨w - (body.length + sg.length), 0, by simp, by simp, by simp, by simp, by simp⟩
+      | false =>
+        simp only [Bool.false_eq_true, if_false]
+        rcases ha : sp.align with _ | a
+        · exact ⟨w - (body.length + sg.length), 0, by simp, by simp, by simp, by simp, by simp⟩
+        · cases a
+          · exact ⟨0, w - (body.length + sg.length), by simp, by simp, by simp, by simp, by simp⟩
+          · refine ⟨(w - (body.length + sg.length)) / 2, (w - (body.length + sg.length) + 1) / 2,
+              by simp, by simp, by simp, by simp, ?_⟩
+            intro _ _; omega
+          · exact ⟨w - (body.length + sg.length), 0, by simp, by simp, by simp, by simp, by simp⟩
+
+/-- split a displayed text at its LAST space -/
+def splitLastSpace (t : Text) : Text × Text :=
+  let r := t.reverse
+  ((r.dropWhile (· != 32)).drop 1 |>.reverse, (r.takeWhile (· != 32)).reverse)
+
+/-- round trip of the shape: the displayed text splits at the last space into the amount text
+and the symbol, for every symbol without a space (as in the whole catalogue) -/
+theorem fmt_splits (amt sym : Text) (h : ∀ c ∈ sym, c ≠ 32) :
+    splitLastSpace (amt ++ [32] ++ sym) = (amt, sym) := by
+  unfold splitLastSpace
+  have hr : (amt ++ [32] ++ sym).reverse = sym.reverse ++ 32 :: amt.reverse := by simp
+  have hall : ∀ c ∈ sym.reverse, (c != 32) = true := by
+    intro c hc; simpa using h c (List.mem_reverse.mp hc)
+  simp only [hr]
+  rw [List.takeWhile_append_of_pos hall, List.dropWhile_append_of_pos hall]
+  simp
+
+/-- a rate displays as `term / per`; the per-multiple is omitted when it is one -/
+theorem rate_fmt_per_one (ta ts pa ps : Text) (hts : ts ≠ []) (hps : ps ≠ []) :
+    rateFmt ta ts pa ps true = ta ++ [32] ++ ts ++ [32, 47, 32] ++ ps ∧
+    rateFmt ta ts pa ps false = ta ++ [32] ++ ts ++ [32, 47, 32] ++ pa ++ [32] ++ ps := by
+  cases ts with
+  | nil => exact absurd rfl hts
+  | cons a as =>
+    cases ps with
+    | nil => exact absurd rfl hps
+    | cons b bs => simp [rateFmt, List.append_assoc]
+
+theorem rate_fmt_unitless (ta pa : Text) (one : Bool) : rateFmt ta [] pa [] one = ta ++ [32, 47, 32] ++ pa := by
+  simp [rateFmt]
+
+/-- non-vacuity: `{:*^+12.1}` of -5.0 µm is `**-5.0 µm***` (12 characters although `µ` is two bytes) -/
+example : qtyFmt { fill := some 42, align := some .center, plus := true, width := some 12, prec := some 1 }
+    false [53, 46, 48] [181, 109] = [42, 42, 45, 53, 46, 48, 32, 181, 109, 42, 42, 42] := by decide
+
+/-- KNOWN FINDING (kernel-checked witness): the decimal back-end clamps a precision above 18:
+`{:.20}` of 0.1 shows 18 fractional digits -/
+theorem dec_precision_clamped :
+    (decAbsText (some 20) ⟨1, 1⟩).length = 20 ∧ decAbsText (some 20) ⟨1, 1⟩ = decAbsText (some 18) ⟨1, 1⟩ := by
+  decide +kernel
+
 end Qty.C15
